@@ -22,6 +22,7 @@ class Unsupported(Exception):
 
 
 _CUR = None
+_XC = [0]
 
 
 def cur():
@@ -45,6 +46,10 @@ class Stats:
         self.final_unsat = 0
         self.final_sat = 0
         self.final_unknown = 0
+        self.xcheck_done = 0
+        self.xcheck_agree = 0
+        self.xcheck_inconclusive = 0
+        self.xcheck_disagree = 0
 
     def merge(self, o):
         for k, v in o.__dict__.items():
@@ -210,7 +215,42 @@ class Explorer:
             self.stats.final_unsat += 1
         else:
             self.stats.final_unknown += 1
+        every = getattr(self, 'xcheck_every', 0)
+        _XC[0] += 1
+        if every and r in ('sat', 'unsat') and _XC[0] % every == 0:
+            self._xcheck(cs, r)
         return r, m
+
+    def _xcheck(self, cs, verdict):
+        """second solver: re-decide the query with the z3 4.8.12 binary from its SMT-LIB2 text"""
+        import subprocess
+        import tempfile
+        import os
+        s = z3.Solver()
+        for c in cs:
+            s.add(c)
+        fd, path = tempfile.mkstemp(suffix='.smt2', prefix='tv_x_')
+        try:
+            with os.fdopen(fd, 'w') as f:
+                f.write(s.to_smt2())
+            p = subprocess.run(['/usr/bin/z3', '-T:20', path], stdout=subprocess.PIPE, stderr=subprocess.STDOUT, timeout=40)
+            out = p.stdout.decode(errors='replace')
+            first = out.strip().splitlines()[0].strip() if out.strip() else ''
+            self.stats.xcheck_done += 1
+            if '(error' in out or first not in ('sat', 'unsat'):
+                self.stats.xcheck_inconclusive += 1
+            elif first == verdict:
+                self.stats.xcheck_agree += 1
+            else:
+                self.stats.xcheck_disagree += 1
+        except Exception:
+            self.stats.xcheck_done += 1
+            self.stats.xcheck_inconclusive += 1
+        finally:
+            try:
+                os.unlink(path)
+            except OSError:
+                pass
 
     # -- driver ------------------------------------------------------------
     def explore(self, body):
